@@ -175,6 +175,19 @@ pub fn run(out: &mut impl Write, seed: u64, cases: usize, _replay: &str, burst: 
             if live.len() < 2 { break; }
             let ci = live[r.below(live.len() as u64) as usize];
             let k = r.below(100);
+            // once per history (two thirds in): a connection that has announced a torrent announces it under
+            // another peer id, with any event
+            let mut directed: Option<(usize, [u8; 20], [u8; 20], String)> = None;
+            if !burst_case && opi == nops * 2 / 3 && live.len() >= 3 {
+                let mut own: Vec<(usize, [u8; 20])> = announced.iter().filter(|((c, _), p)| live.contains(c) && **p == pids[*c]).map(|((c, h), _)| (*c, *h)).collect();
+                own.sort();
+                if !own.is_empty() {
+                    let (c, h) = own[r.below(own.len() as u64) as usize];
+                    let other = pids[(c + 1 + r.below(clients.len() as u64 - 1) as usize) % clients.len()];
+                    directed = Some((c, h, other, r.pick(&["stopped", "stopped", "started", "none", "completed"]).to_string()));
+                }
+            }
+            let (ci, k) = if let Some((c, _, _, _)) = &directed { (*c, 0) } else { (ci, k) };
             if burst_case && opi == nops - 2 {
                 // announces for several torrents in one go, then an abrupt disconnect
                 let nb: usize = burst;
@@ -225,9 +238,13 @@ pub fn run(out: &mut impl Write, seed: u64, cases: usize, _replay: &str, burst: 
             }
             if k < 70 {
                 let hash = hashes[r.below(hashes.len() as u64) as usize];
-                let pid = if r.chance(85) { pids[ci] } else { pids[r.below(clients.len() as u64) as usize] };
+                let pid = if r.chance(if announced.contains_key(&(ci, hash)) { 78 } else { 88 }) { pids[ci] } else { pids[r.below(clients.len() as u64) as usize] };
                 let event = r.pick(&["started", "stopped", "completed", "update", "none", "none", "none"]).to_string();
                 let event = if event == "stopped" && r.chance(50) { "none".to_string() } else { event };
+                // a second peer id on a connection that has announced this torrent: every kind of event, `stopped` often
+                // (the check of the peer id must not depend on the event)
+                let event = if pid != pids[ci] && announced.contains_key(&(ci, hash)) && r.chance(45) { "stopped".to_string() } else { event };
+                let (hash, pid, event) = if let Some((_, h, p, e)) = &directed { (*h, *p, e.clone()) } else { (hash, pid, event) };
                 let left = r.pick(&[None, Some(0usize), Some(0), Some(7), Some(7)]);
                 let offers = if r.chance(55) {
                     let n = r.below(4) as usize;
@@ -236,7 +253,7 @@ pub fn run(out: &mut impl Write, seed: u64, cases: usize, _replay: &str, burst: 
                 let mut hash = hash;
                 let mut pid = pid;
                 let mut ci = ci;
-                let answer = if r.chance(35) && !forwarded.is_empty() {
+                let answer = if directed.is_none() && r.chance(35) && !forwarded.is_empty() {
                     let f = forwarded[r.below(forwarded.len() as u64) as usize].clone();
                     if clients[f.2].conn.is_some() && r.chance(80) { ci = f.2; pid = pids[ci]; }
                     hash = crate::store::arr20(&crate::store::unhex(&f.0));
